@@ -5,7 +5,7 @@ Never touches /repo."""
 import json, os, subprocess, sys, glob
 V = os.path.dirname(os.path.dirname(os.path.abspath(__file__)))
 WT = os.environ.get('EVAL_WT', '/var/tmp/wt/eval')
-dirs = sys.argv[1:] or sorted(glob.glob(os.path.join(V, 'seeded', '*')))
+dirs = sys.argv[1:] or sorted(d for d in glob.glob(os.path.join(V, 'seeded', '*')) if os.path.isdir(d))
 if not os.path.isdir(WT):
     subprocess.run(['git', '-C', '/repo', 'worktree', 'add', '-q', '--detach', WT, 'HEAD'], check=True)
 import shutil; shutil.copy('/repo/Cargo.lock', os.path.join(WT, 'Cargo.lock')) if not os.path.exists(os.path.join(WT, 'Cargo.lock')) else None
